@@ -21,12 +21,19 @@ def main():
     meta = json.load(open(os.path.join(d, "meta.json"))) if os.path.exists(os.path.join(d, "meta.json")) else {}
     checks = sys.argv[2].split(",") if len(sys.argv) > 2 else [meta.get("property", sid[:3])]
     tier = sys.argv[3] if len(sys.argv) > 3 else "quick"
-    if subprocess.run(["git", "-C", "/repo", "status", "--porcelain"], capture_output=True, text=True).stdout.strip():
-        print("refusing: /repo dirty")
-        return 2
     scratch = tempfile.mkdtemp(prefix="seed-", dir="/dev/shm")
     env = dict(os.environ, VERIF_EVIDENCE_DIR=os.path.join(scratch, "ev"), VERIF_REPLAY_DIR=os.path.join(scratch, "rp"))
-    r = subprocess.run(["git", "-C", "/repo", "apply", patch], capture_output=True, text=True)
+    target = "/repo"
+    if os.environ.get("SEEDTEST_WORKTREE"):
+        # do not disturb /repo (a background run may be using it): apply the change in a scratch
+        # worktree of /repo's HEAD and point the checks at it (VERIF_REPO)
+        target = os.path.join(scratch, "repo")
+        subprocess.run(["git", "-C", "/repo", "worktree", "add", "-q", "--detach", target, "HEAD"], check=True)
+        env["VERIF_REPO"] = target
+    elif subprocess.run(["git", "-C", "/repo", "status", "--porcelain"], capture_output=True, text=True).stdout.strip():
+        print("refusing: /repo dirty")
+        return 2
+    r = subprocess.run(["git", "-C", target, "apply", patch], capture_output=True, text=True)
     if r.returncode != 0:
         print("patch does not apply:", r.stderr)
         return 2
@@ -43,7 +50,10 @@ def main():
             if p.returncode == 2:
                 print("   ", [l for l in p.stdout.splitlines() if l.startswith("INCONC")][:1])
     finally:
-        subprocess.run(["git", "-C", "/repo", "checkout", "--", "."])
+        if target == "/repo":
+            subprocess.run(["git", "-C", "/repo", "checkout", "--", "."])
+        else:
+            subprocess.run(["git", "-C", "/repo", "worktree", "remove", "--force", target])
     return 0
 
 
